@@ -570,18 +570,47 @@ def run(ctx):
     return ctx.finish(LEVEL, explanation="theorems over the Gallina model of isNodeAfter / MutableNodeRefList + correspondence of the extracted model with the rebuilt library on insertion histories and all node pairs + independent set/sorted oracle on list states, all-pairs order and XPath union laws")
 
 
+def untok(t):
+    body = t[2:]
+    return "" if not body else "".join(chr(int(h, 16)) for h in body.split(","))
+
+
 def replay(ctx, path):
+    """re-run the case lines of a replay file against the library and re-apply the oracle; exit status 1 if it still fails"""
     core.build_lib("plain")
     impl, ok_h, hlog = core.build_harness(FAMILY, "plain")
-    lines = [l for l in open(path) if l.strip() and not l.startswith("#")]
-    rc, out = core.sh([impl], input="".join(lines))
-    print(out)
+    lines = [l.rstrip("\n") for l in open(path) if l.strip() and not l.startswith("#")]
+    rc, res, raw = core.run_lines(impl, "\n".join(lines) + "\n", timeout=300)
     bad = 0
-    for l, o in zip(lines, out.split("\n")):
-        f = l.rstrip("\n").split("|")
-        if len(f) > 3 and f[1] == "L":
-            msg, _ = oracle_history(f[-1][2:].split(), o.split(" ", 1)[1].split(";") if " " in o else [])
-            if msg:
-                print("# FAILS: " + msg)
-                bad = 1
+    for l in lines:
+        f = l.split("|")
+        if len(f) < 4:
+            continue
+        o = res.get(f[0])
+        print("%s -> %s" % (f[0], o))
+        msg = None
+        if o is None:
+            msg = "no result (crash or hang)"
+        elif f[1] == "L":
+            msg, multi = oracle_history(f[-1][2:].split(), o.split(";") if o else [])
+            if msg and multi:
+                msg += "   [class: list holds nodes of more than one document]"
+        elif f[1] == "X":
+            exprs = [untok(x.split("=", 1)[1]) for x in f[-1][2:].split()]
+            outs = o.split(";")
+            if len(exprs) == 9:
+                msg = oracle_x(exprs, outs)
+            else:
+                for e, t in zip(exprs, outs):
+                    v = parse_ids(t)
+                    if v is None or not strictly(v, True):
+                        msg = "%s -> %s" % (e, t)
+        elif f[1] == "P":
+            for h in o.split(";"):
+                m = int(round(len(h) ** 0.5))
+                if h != "".join("1" if i > j else "0" for i in range(m) for j in range(m)):
+                    msg = "isNodeAfter disagrees with the pre-order numbers: " + h[:120]
+        if msg:
+            print("# FAILS: " + msg)
+            bad = 1
     return bad
